@@ -15,3 +15,29 @@ Theorem C01_makeC_binomial : forall a A x,
   sum_f_R0 (fun m => Rmult (calcC ROps a m A) (pow x m)) a = pow (Rminus x A) a.
 Proof. exact makeC_binomial. Qed.
 Print Assumptions C01_makeC_binomial.
+
+(* The three type-2 branches of compute_shell_pair agree with one another (ShellPair/ShellPairLimit.v).
+   (i) One shell on the ECP centre: qgen::rolled_up_special IS qgen::rolled_up evaluated with the leaves that shell has on
+   the centre -- zero shift (makeC's coefficients become a Kronecker delta), the constant harmonic SA(0,0) = 1/sqrt(4 pi),
+   and a radial table that vanishes for l1 > 0 (M_l(0) = [l = 0]); in particular the prefactor 8 pi sqrt(pi) is
+   16 pi^2 / sqrt(4 pi).  For every class, every lambda, mu, every second shell and every table Om. *)
+From Coq Require Import ZArith List.
+From LV Require Import ShellPair.ShellPairSym ShellPair.ShellPairLimit.
+Theorem C01_special_is_limit : forall Om (SA SB : nat -> Z -> R) rad lam fa fb B mu,
+  SA 0%nat 0%Z = (/ sqrt (4 * PI))%R ->
+  (forall N l1 l2, 0 < l1 -> rad N l1 l2 = 0%R) ->
+  rolled_up ROps PI Om SA SB rad lam fa fb (0%R, 0%R, 0%R) B mu = rolled_up_special ROps PI Om SB rad lam fa fb B mu.
+Proof. exact special_is_limit. Qed.
+Print Assumptions C01_special_is_limit.
+(* (ii) Both shells on the centre: the closed form (t2_both) is rolled_up_special with the second shell's on-centre leaves,
+   given that the radial entry (N,0,0) is the Gaussian-moment sum the closed form writes out (t2_value) and that the
+   product of the two angular factors vanishes when the total Cartesian degree is odd (parity of the tables, C13). *)
+Theorem C01_both_is_limit : forall Om (SB : nat -> Z -> R) rad gamma lam LA LB pA pB pU fa fb mu,
+  SB 0%nat 0%Z = (/ sqrt (4 * PI))%R ->
+  (forall N l1 l2, 0 < l2 -> rad N l1 l2 = 0%R) ->
+  rad (deg3 fa + deg3 fb) 0 0 = t2_value gamma lam LA LB pA pB pU ->
+  (Nat.odd (deg3 fa + deg3 fb) = true ->
+     ((let '(x1, r1, z1) := fa in Om x1 r1 z1 lam mu 0%nat 0%Z) * (let '(x2, y2, z2) := fb in Om x2 y2 z2 lam mu 0%nat 0%Z))%R = 0%R) ->
+  rolled_up_special ROps PI Om SB rad lam fa fb (0%R, 0%R, 0%R) mu = t2_both ROps PI Om gamma lam LA LB pA pB pU fa fb mu.
+Proof. exact both_is_limit. Qed.
+Print Assumptions C01_both_is_limit.
